@@ -29,4 +29,12 @@ var configs = map[string]config{
 		Assumptions: assume(modelAssumption, "the canonical serializer and the expansion used as value oracle are written independently of the model in harness/props/c08.go; the 256 zero/non-zero shapes are enumerated completely, other address values are sampled")},
 	"C09": {Tests: "^TestC09$", QuickChecks: 30000, ThoroughChecks: 300000, QuickShards: 8, ThoroughShards: 16,
 		Assumptions: assume("the UTS #46 mapping itself is taken as given (property wording); spellings vary only characters whose literal and escaped forms are both inside the host (no '%', tab/LF/CR or authority delimiter in the decoded host)", "the C07 sub-case uses the reference model's IPv4 parser")},
+	"C10": {Tests: "^TestC10", QuickChecks: 30000, ThoroughChecks: 300000, QuickShards: 8, ThoroughShards: 16,
+		Assumptions: assume("the tables are the set predicates in harness/spec/encode.go, written from the standard's definitions; the exhaustive part covers every code point and byte for the six named sets of the statement", "string laws that are only valid for sets without '%' and ASCII hex digits (idempotence, decode(encode(s)) = decode(s)) are evaluated for such sets only; invalid UTF-8 is compared modulo the U+FFFD substitution the API performs")},
+	"C11": {Tests: "^TestC11$", QuickChecks: 40000, ThoroughChecks: 300000, QuickShards: 8, ThoroughShards: 16,
+		Assumptions: assume("list semantics and the form-urlencoded parser are written from the standard (harness/props/c11.go, harness/spec/encode.go); names are ordered by Go string comparison, and sort cases mixing supplementary-plane characters with U+E000..U+FFFF (where UTF-16 code unit order differs) are not judged; invalid UTF-8 is compared after collapsing runs of U+FFFD", "the whole ordered list is read through Iterate on a twin object because Iterate writes back to the URL")},
+	"C12": {Tests: "^TestC12$", QuickChecks: 30000, ThoroughChecks: 300000, QuickShards: 8, ThoroughShards: 16,
+		Assumptions: assume("the list of a handle is read through Has/Get/GetAll for all names in play and through String() compared with a twin's serialization of the expected list (Iterate is avoided because it writes back to the URL)", "the expected list after SetSearch is the reference form-urlencoded parse of the stored query; histories whose decoded lists contain invalid UTF-8 are not judged through getters")},
+	"C13": {Tests: "^TestC13$", QuickChecks: 20000, ThoroughChecks: 200000, QuickShards: 8, ThoroughShards: 16,
+		Assumptions: assume("a side whose parameter list was never materialised is observed through its getters only until the end of the history, because looking at the list would itself create the lazily created state the scenario is about", "the isolated twin is a fresh parse of the same string with the same operations")},
 }
